@@ -99,12 +99,12 @@ func c16Gen(r *RNG, id string) *Case {
 		vc.Set("via", "")
 		return relOf(vc, "layout", "eq")
 	}
-	if r.Chance(1, 400) {
+	if r.Chance(1, 250) {
 		// an alignment of several MiB (built from the case's parameters when the case runs, not carried in the case line):
 		// the reference look-up of `variants` against the list reader, for a reference record that lies across a 1 MiB
 		// boundary of the file (any reader that keeps slices of its scanner's buffer loses it there)
 		c := NewCase("C16", id)
-		c.SetInt("bigseed", r.Intn(1<<30)).SetInt("bignrec", r.Range(2600, 3600)).SetInt("bigwidth", r.Range(900, 1100)).SetInt("bigwrap", r.PickInt([]int{60, 70, 80}))
+		c.SetInt("bigseed", r.Intn(1<<30)).SetInt("bignrec", r.Range(2600, 3600)).SetInt("bigwidth", r.Range(900, 1100)).SetInt("bigwrap", r.PickInt([]int{60, 70, 80, 0, 0}))
 		c.SetInt("bigmib", r.Range(1, 2))
 		return relOf(c, "bigref", "same")
 	}
@@ -167,6 +167,45 @@ func c16Gen(r *RNG, id string) *Case {
 		c.Set("text", text)
 		c.NonTrv = true
 		c.Tag("layout")
+		return c
+	}
+	if r.Chance(1, 40) {
+		// unwrapped records of several hundred symbols, one of which (the one looked up as the reference) ends a few bytes
+		// before byte 4096, 8192 or 16384 of the file - the sizes through which a bufio.Scanner's buffer grows - so that the
+		// next header straddles the boundary: a reader that keeps a slice of the scanner's buffer loses that record there
+		B := 4096 << uint(r.Intn(3))
+		w := r.Range(500, 1200)
+		base := randSeq(r, w, symACGT, false)
+		ids, descs, seqs = nil, nil, nil
+		off := 0
+		for i := 0; ; i++ {
+			idn := fmt.Sprintf("rec%d", i)
+			sq := mutateSeq(r, base, "ACGTN-", 1, 30, false)
+			if off+len(idn)+2+w+1+len(idn)+2+w+1 > B-2 { // this one is the last before the boundary: pad its header
+				d := r.Range(1, 5)
+				pad := B - d - (off + 1 + len("theref") + 1 + 1 + w + 1) // '>' id ' ' pad '\n' seq '\n'
+				if pad < 0 {
+					pad = 0
+				}
+				ids = append(ids, "theref")
+				descs = append(descs, "theref "+strings.Repeat("x", pad))
+				seqs = append(seqs, sq)
+				break
+			}
+			ids, descs, seqs = append(ids, idn), append(descs, idn), append(seqs, sq)
+			off += 1 + len(idn) + 1 + w + 1
+		}
+		for i := 0; i < 3; i++ {
+			idn := fmt.Sprintf("after%d", i)
+			ids, descs, seqs = append(ids, idn), append(descs, idn+" sample"), append(seqs, mutateSeq(r, base, "ACGTN-", 1, 30, false))
+		}
+		text := renderFasta(descs, seqs, layout{})
+		c.SetBool("hard", r.Bool()).Set("refid", "theref")
+		c.Set("kind", "layout").Set("ids", strings.Join(ids, ",")).Set("descs", strings.Join(descs, sepUS)).Set("seqs", strings.Join(seqs, ","))
+		c.Set("text", text)
+		c.NonTrv = true
+		c.Tag("layout")
+		c.Tag("record-ends-at-buffer-boundary")
 		return c
 	}
 	text := renderLayout(r, descs, seqs)
@@ -407,7 +446,7 @@ func bigAlignmentText(c *Case) (string, string) {
 		s := mutateSeq(r, base, "ACGTN-", 1, 50, false)
 		for len(s) > 0 {
 			k := wrap
-			if k > len(s) {
+			if k > len(s) || k == 0 { // wrap 0: the whole sequence on one line
 				k = len(s)
 			}
 			b.WriteString(s[:k] + "\n")
